@@ -155,7 +155,8 @@ CHECKS['C12'] = dict(
    technique='Coq proof (congruence of every decoder under agreement on the datagram prefix, lifted to the server and client steps), differential correspondence over varied residues',
    design='4/C12')
 CHECKS['C06'] = dict(
-   text='Coq theorems for all inputs about the client-side decoders and the client tunnel model: every write stays within its destination (decoded answers, '
+   text='PARTIAL (the decoders and the tunnel state machine are proved safe for all inputs; the handshake functions have no model and are covered by sanitizer runs only). '
+        'Coq theorems for all inputs about the client-side decoders and the client tunnel model: every write stays within its destination (decoded answers, '
         'readname, readtxtbin, the 250x256 MX name array and its output loop, dns_namedec including its trailing NUL), fuel adequacy / termination of every '
         'loop with explicit work bounds, the reassembly buffer and counters stay in range over arbitrary event histories (given zlib output fits its buffer), and '
         'a reply that matches none of the recent queries leaves the tunnel state unchanged and writes nothing to tun. Tied to the C by decoder, tunnel-history '
@@ -165,7 +166,8 @@ CHECKS['C06'] = dict(
    technique='Coq proof (bounds invariants of the decoder models, fuel adequacy, state invariant by induction over events), differential correspondence, sanitizer runs',
    design='4/C05-C06')
 CHECKS['C11'] = dict(
-   text='Coq theorems over the relay family (case keep/lower/upper/random x 8-bit clean/strip/reject x punctuation keep/mangle +/mangle _, on either side, size '
+   text='PARTIAL (decision logic, pattern coverage, codec survival, binary search and fallback proved; retry/time-out sequencing validated by runs only; random-case '
+        'member under an explicit hypothesis; three known findings). Coq theorems over the relay family (case keep/lower/upper/random x 8-bit clean/strip/reject x punctuation keep/mangle +/mangle _, on either side, size '
         'limits, EDNS0, record-type sets): the test patterns cover every alphabet character a deterministic relay can alter (by reflection over the 27 members), '
         'so the upstream codec selected survives the query side for every payload (via the C07 round trip); the downstream codec selected delivers every payload '
         'except Raw over TXT with "+" mangling (refuted with witness = known finding); Base32 survives all 36 members; the fragment-size binary search returns a size '
@@ -224,7 +226,8 @@ CHECKS['C16'] = dict(
    technique='Coq proof (ring refinement to "last n saves", state-unchanged theorems for every suppressed/replayed case, trace induction), differential correspondence, implementation-level monitor',
    design='4/C16')
 CHECKS['C05'] = dict(
-   text='Coq theorems over arbitrary event lists of the server model (datagrams of arbitrary bytes and length, tun packets, sweeps; zlib output bounded by its '
+   text='PARTIAL (index/length/termination safety of the modelled server code proved for all inputs; C-expression-level undefined behaviour, uninitialised reads, libc and zlib '
+        'internals are observed by ASan/UBSan runs only). Coq theorems over arbitrary event lists of the server model (datagrams of arbitrary bytes and length, tun packets, sweeps; zlib output bounded by its '
         'buffer as the only hypothesis): every index, offset, length and counter of every session stays within the bounds of the C buffers (reassembly buffer, '
         'out-packet, queue, answer cache, query memories, held names) — buffer sizes re-read from the source; every output is within its buffer; parser bounds '
         '(names <= 255, unpack_data / the ping fingerprint leave room for the NUL); every user index that reaches users[] was range-checked; all loops run on '
